@@ -58,7 +58,7 @@ def generate(spec):
     via = rng.choice(["direct", "bptk", "bptk", "bptk_class", "bptk_two_managers", "rest_run"])
     sel = {"agents": rng.sample(["a", "b"], rng.choice([1, 2])),
            "states": rng.sample(W.STATES, rng.choice([1, 2, 3])),
-           "properties": rng.sample(["x", "n"], rng.choice([0, 1, 2])),
+           "properties": rng.sample(["x", "n", "x_2"], rng.choice([0, 1, 2, 3])),
            "types": rng.sample(PTYPES, rng.choice([1, 2, 4]))}
     if not sel["properties"]:
         sel["types"] = []
